@@ -30,6 +30,7 @@ STATE: dict = {}      # facts established by earlier scenarios of this run and u
 def theory():
     T = Theory()
     E.install(T)
+    T.strict_slices = True       # toeplitz.py never relies on slice clamping: in-range slices are obligations
     return T
 
 
